@@ -101,10 +101,21 @@ SPACED = {
 }
 
 
+# NOTE: no gap between the inner index register and the closing parenthesis of (sr,s),y: that position is not in the statement's list, and the
+# scanner does treat `(0xab,s ),y` differently (the `,y` is then lexed as COMMA IDENTIFIER and the statement is rejected) -- observed, not claimed.
+CASED = {
+    "LDA.W 0x1F,X in any letter case": (["_n", "^lda", ".", "^w", "_", "0x", "^1f", "_", ",", "_", "^x", "_t"],
+                                        [("OPCODE", "lda"), ("OPCODE_SIZE", "w"), ("NUMBER", "0x1f"), ("ADDRESSING_MODE_INDEX", "x")]),
+    "STA (0xAB,S),Y in any letter case": (["_n", "^sta", "__", "(", "_", "0x", "^ab", "_", ",", "_", "^s", ")", "_", ",", "_", "^y", "_t"],
+                                          [("OPCODE", "sta"), ("LPAREN", "("), ("NUMBER", "0xab"), ("ADDRESSING_MODE_INDEX", "s"), ("RPAREN", ")"), ("ADDRESSING_MODE_INDEX", "y")]),
+    "RTS in any letter case": (["_n", "^rts", "_t"], [("OPCODE_NAKED", "rts")]),
+}
+
+
 def shape_spaced(name):
     def sh(B):
         from vf.pyvc.values import FuncVal
-        pieces, toks = SPACED[name]
+        pieces, toks = SPACED[name] if name in SPACED else CASED[name]
         ps = []
         for k, x in enumerate(pieces):
             if x == "_n":
@@ -115,6 +126,8 @@ def shape_spaced(name):
                 ps.append(("run", f"gap{k}", " ", 0))
             elif x == "__":
                 ps.append(("run", f"gap{k}", " ", 1))
+            elif x.startswith("^"):
+                ps.append(("anycase", x[1:]))
             elif x == ";c":
                 ps.append(("chars", f"comment{k}", 1, 0x10FFFF, "\n", 0))  # any comment text: every character but the line end (and NUL, the scanner's end marker)
             elif x == "/*c":
@@ -124,7 +137,7 @@ def shape_spaced(name):
         text, _spans = B.text("input", ps)
         sc = B.inst("a816.parse.scanner.Scanner", initial_state=FuncVal(LX + "lex_initial"), tokens=B.list([]), line_offset=0, current_line=0, pos=0, start=0)
         return {"s": sc, "name": "t.s", "text": text, "expected_types": B.list([B.enum("a816.parse.tokens.TokenType", t) for t, _ in toks] + [B.enum("a816.parse.tokens.TokenType", "EOF")]),
-                "expected_values": B.list([v for _, v in toks] + [""])}  # None: the token's text is not constrained (comment text)
+                "fold_case": name in CASED, "expected_values": B.list([v for _, v in toks] + [""])}  # None: the token's text is not constrained (comment text)
     return sh
 
 
@@ -231,7 +244,7 @@ def spaced_loop_specs():
 def cases(E):
     cs = [Case(H + "scan_statement_contract", f"`{n}` with any number of spaces in every gap", shape_spaced(n), loop_specs=spaced_loop_specs(), timeout_ms=60000,
                target=[SC + "scan", SC + "accept_run", LX + "lex_initial", LX + "lex_opcode", LX + "lex_operand", LX + "lex_expression", LX + "lex_number", LX + "lex_opcode_index", LX + "lex_opcode_size"],
-               group="spaces") for n in SPACED]
+               group="spaces") for n in list(SPACED) + list(CASED)]
     for shape in ("direct", "direct_indexed", "dp_indirect_indexed", "indirect_indexed"):
         for ws in (False, True):
             cs.append(Case(H + "parse_opcode_case_contract", f"{shape}, size suffix={ws}", shape_opcode(shape, ws), target=[PS + "parse_opcode", PS + "parse_operand_and_addressing"]))
@@ -243,7 +256,8 @@ def cases(E):
     return cs
 
 
-OPTIONAL_CHECKS = {"parse_opcode_case_contract": ["size_lower_cased", "no_size", "index_lower_cased", "inner_index_lower_cased", "no_index"]}
+OPTIONAL_CHECKS = {"scan_statement_contract": ["same_token_text", "same_token_text_up_to_case"],
+                   "parse_opcode_case_contract": ["size_lower_cased", "no_size", "index_lower_cased", "inner_index_lower_cased", "no_index"]}
 
 
 def bounded(tier, seed):
